@@ -2,8 +2,8 @@
 From CppcmsV Require Import Base.Tac C17.Defs.
 Local Open Scope N_scope.
 
-Ltac sst := cbn [queue fdmap timers stop polling reactor woken clock counter lpc running timeout log subs dropped set_queue set_fdmap set_timers set_stop set_polling set_reactor set_woken set_clock set_counter set_lpc set_running set_timeout set_log set_subs set_dropped].
-Ltac sst_in H := cbn [queue fdmap timers stop polling reactor woken clock counter lpc running timeout log subs dropped set_queue set_fdmap set_timers set_stop set_polling set_reactor set_woken set_clock set_counter set_lpc set_running set_timeout set_log set_subs set_dropped] in H.
+Ltac sst := cbn [queue fdmap timers stop polling reactor woken clock counter lpc running timeout pstart log subs dropped set_queue set_fdmap set_timers set_stop set_polling set_reactor set_woken set_clock set_counter set_lpc set_running set_timeout set_pstart set_log set_subs set_dropped].
+Ltac sst_in H := cbn [queue fdmap timers stop polling reactor woken clock counter lpc running timeout pstart log subs dropped set_queue set_fdmap set_timers set_stop set_polling set_reactor set_woken set_clock set_counter set_lpc set_running set_timeout set_pstart set_log set_subs set_dropped] in H.
 
 Definition cnt (h:N) (l:list N) : nat := count_occ N.eq_dec l h.
 
